@@ -200,7 +200,7 @@ def _from_table_by_value(ctx, qf, ff, q, qa, cls, pcol, socol):
         fi = P.func(qf)
         bound = x.symbolic_args(fi)
         bound["cls"] = ClassV(cls)
-        val = x._exec_function(fi, {k: v for k, v in bound.items()}, None, None, fi.cls)
+        val = x.enter(fi, {k: v for k, v in bound.items()}, None, None, fi.cls)
         src = [e for e in x.events if e.kind == "int_call" and e.data["callee"] in (q, qa, ql, qc) and "pvt" in e.data["args"]]
         pvt = next((e.data["args"]["pvt"] for e in src), None)
         kr = next((e.data["args"]["kr"] for e in src if "kr" in e.data["args"]), None)
